@@ -514,6 +514,44 @@ def finally_exit_cases():
     return out
 
 
+ERR_SOURCES = [
+    ("Error", "new Error('m')"), ("Error-no-message", "new Error()"), ("Error-empty", "new Error('')"), ("Error-number", "new Error(5)"),
+    ("Error-object-message", "new Error({toString: function () { return 'from-toString' }})"), ("Error-called", "Error('called')"),
+    ("TypeError", "new TypeError('t')"), ("RangeError", "new RangeError('r')"), ("SyntaxError", "new SyntaxError('s')"),
+    ("ReferenceError", "new ReferenceError('f')"), ("TypeError-called", "TypeError('tc')"),
+    ("renamed", "(function () { var e = new Error('m'); e.name = 'Custom'; return e })()"),
+    ("name-emptied", "(function () { var e = new TypeError('m'); e.name = ''; return e })()"),
+    ("message-emptied", "(function () { var e = new TypeError('m'); e.message = ''; return e })()"),
+    ("name-undefined", "(function () { var e = new TypeError('m'); e.name = undefined; return e })()"),
+    ("message-number", "(function () { var e = new Error('m'); e.message = 42; return e })()"),
+    ("own-toString", "(function () { var e = new Error('m'); e.toString = function () { return 'mine' }; return e })()"),
+    ("inheriting", "Object.create(new RangeError('proto-msg'))"), ("prototype-itself", "TypeError.prototype"),
+    ("error-like", "({name: 'Like', message: 'lm', toString: Error.prototype.toString})"),
+]
+ERR_RUNTIME = ["null.x", "undefined.f()", "noSuchName", "(void 0)()", "new Array(-1)", "'a'.repeat(-1)", "JSON.parse('{')", "new RegExp('(')",
+               "(1).toFixed(200)", "[].reduce(function () { })", "null[0] = 1", "({}).x.y", "new (function () { }).missing()", "decodeURIComponent('%')",
+               "eval('(')", "x = y + 1"]
+ERR_OBS = ["String(e)", "'' + e", "e.toString()", "[e].join()", "e + ''", "'<' + [e, e] + '>'", "e.name", "e.message", "typeof e.message",
+           "e instanceof Error", "e instanceof TypeError", "e instanceof RangeError", "Object.keys(e).join()", "JSON.stringify(e)",
+           "typeof e.stack", "e.toString === Error.prototype.toString", "e.constructor === Error"]
+
+
+def error_text_cases():
+    out = []
+    for name, src in ERR_SOURCES:
+        for o in ERR_OBS:
+            p = "var e = %s; var r; try { r = %s } catch (x) { r = 'throw:' + x.name } r" % (src, o)
+            out.append(("T|%s|%s" % (name, o), {"src": p}))
+    # errors raised by the engine: the message text is implementation-defined, its relation to the rendering is not
+    for src in ERR_RUNTIME:
+        p = ("var e; try { %s; e = 'no error' } catch (x) { e = x } "
+             "[typeof e === 'object' && e !== null ? e.name : e, e instanceof Error, typeof e.message, String(e) === (e.message ? e.name + ': ' + e.message : e.name), "
+             "'' + e === String(e), e.toString() === String(e), Object.keys(e).join(), e instanceof SyntaxError, e instanceof TypeError, e instanceof RangeError, "
+             "e instanceof ReferenceError]" % src)
+        out.append(("T|runtime|" + src, {"src": p, "tl": 5000}))
+    return out
+
+
 def f_spaces():
     return [Space("c07_nested", RUN, nested_cases, oracle="table", batch=200,
                   rule="%d x %d ordered pairs of built-ins that call back into script (outer runs its callback twice) x {throw a value, "
@@ -521,6 +559,12 @@ def f_spaces():
                        "callback, between with finally, between and re-thrown}; the log shows which handler ran, that the outer built-in went "
                        "on with its next element, and three probes afterwards; expected = V8" % (len(NEST), len(NEST)),
                   bound="%d^2 x 4 x 5" % len(NEST)),
+            Space("c07_error_text", RUN, error_text_cases, oracle="table", batch=100,
+                  rule="%d error objects (every constructor, called and constructed, odd messages, renamed, name / message emptied, own toString, "
+                       "inheriting, error-like) x %d renderings and tests (String, +, toString, join, name, message, instanceof, keys, "
+                       "stringify); %d errors raised by the engine itself: class, instanceof, and that the rendering is name + ': ' + message "
+                       "(the message text itself is implementation-defined)" % (len(ERR_SOURCES), len(ERR_OBS), len(ERR_RUNTIME)),
+                  bound="%d x %d + %d" % (len(ERR_SOURCES), len(ERR_OBS), len(ERR_RUNTIME))),
             Space("c07_finally_exit", RUN, finally_exit_cases, oracle="table", batch=200,
                   rule="break / continue written inside a finally block while an exception (thrown, runtime, from a built-in, in a catch, "
                        "through nested finally) or nothing is pending, inside %d kinds of loop / switch / labelled block (for-of and for-in "
